@@ -106,6 +106,18 @@ int fcntl(int fd, int cmd, ...) { static auto r = real<int (*)(int, int, ...)>("
 int fcntl64(int fd, int cmd, ...) { static auto r = real<int (*)(int, int, ...)>("fcntl64"); va_list a; va_start(a, cmd); void* arg = va_arg(a, void*); va_end(a); lock_delay(fd, cmd); return r ? r(fd, cmd, arg) : -1; }
 int rmdir(const char* p) { static auto r = real<int (*)(const char*)>("rmdir"); if (!g_ip_active) return r(p); if (pre("rmdir", p)) return -1; int rv = r(p); post("rmdir", p, -1); return rv; }
 
+// ---- RNG fault injection (OpenSSL builds): the library's calls to RAND_bytes bind to this symbol of the host executable
+static int g_rng_on = 0, g_rng_calls = 0, g_rng_fail_at = -1, g_rng_injected = 0;
+int RAND_bytes(unsigned char* buf, int num) {
+	static int (*r)(unsigned char*, int) = nullptr;
+	if (!r) { r = real<int (*)(unsigned char*, int)>("RAND_bytes"); if (!r) { void* h = dlopen("libcrypto.so.3", RTLD_NOW | RTLD_NOLOAD); if (!h) h = dlopen("libcrypto.so.3", RTLD_NOW); if (h) r = (int (*)(unsigned char*, int))dlsym(h, "RAND_bytes"); } }
+	if (!r) return 0;
+	if (!g_ip_active || !g_rng_on) return r(buf, num);
+	int n = __sync_add_and_fetch(&g_rng_calls, 1);
+	if (n == g_rng_fail_at) { __sync_add_and_fetch(&g_rng_injected, 1); return 0; }   // the request fails and the buffer is left as the caller prepared it
+	return r(buf, num);
+}
+
 // ---- termination: a library must never end the host process
 void exit(int code) { static auto r = real<void (*)(int)>("exit"); if (cur_fn[0]) { death_note("exit", code); _exit(code ? code : 99); } r(code); __builtin_unreachable(); }
 void abort(void) { static auto r = real<void (*)(void)>("abort"); death_note("abort", 134); signal(SIGABRT, SIG_DFL); r(); __builtin_unreachable(); }
@@ -128,6 +140,13 @@ void ip_quiet_exit() { cur_fn[0] = 0; fflush(stdout); }
 
 json ip_control(const json& q) {
 	json r; std::lock_guard<std::mutex> lk(G.mu);
+	if (q.value("fn", std::string()) == "rng") {   // {"fn":"rng","mode":"count"|"fail"|"off"|"status","k":n}
+		std::string m = q.value("mode", std::string("status"));
+		if (m == "count") { g_rng_on = 1; g_rng_calls = 0; g_rng_fail_at = -1; g_rng_injected = 0; }
+		else if (m == "fail") { g_rng_on = 1; g_rng_calls = 0; g_rng_fail_at = q.value("k", -1); g_rng_injected = 0; }
+		else if (m == "off") { g_rng_on = 0; }
+		r["calls"] = g_rng_calls; r["injected"] = g_rng_injected; return r;
+	}
 	std::string mode = q.value("mode", std::string("status"));
 	if (mode == "status" || mode == "trace") { }
 	else {
